@@ -13,3 +13,4 @@ import BV.C15.LemmasMore
 import BV.C15.LemmasBest
 import BV.C15.LemmasMore2
 import BV.C15.LemmasLegacy
+import BV.C15.LemmasCanon
